@@ -1,6 +1,7 @@
 """C06 — the constraint system does not depend on the values processed."""
 import copy
-import tracecheck, matrixcases
+import random
+import tracecheck, matrixcases, arraygen, progs
 
 PID = "C06"
 PROFILE = {"p_ignore": 0.0, "p_valid_inputs": 0.85, "guard_inputs": [0, 3], "max_guard_depth": 3,
@@ -10,6 +11,12 @@ PROFILE = {"p_ignore": 0.0, "p_valid_inputs": 0.85, "guard_inputs": [0, 3], "max
 def variants(case, rnd):
     """same program: another valid-ish input vector (other guard value), and an arbitrary one with error checking off"""
     if case.get("matrix", "").startswith("op:"): return matrixcases.sign_variants(case)
+    if case.get("array"):
+        # other index values, in range and (error checking off) out of range / negative: one constraint system
+        v = copy.deepcopy(case); v["ins"] = [rnd.randrange(0, 3) if 0 <= x < 4 else x for x in case["ins"]]
+        u = copy.deepcopy(case); u["cfg"] = dict(case["cfg"], ign=1); u["ins"] = [rnd.choice([-1, -2, 5, 1000]) if 0 <= x < 4 else x for x in case["ins"]]
+        w_ = copy.deepcopy(case); w_["cfg"] = dict(case["cfg"], ign=1)
+        return [v, u, w_]
     n, p = case["cfg"]["n"], case["cfg"]["p"]
     v1 = copy.deepcopy(case)
     v1["ins"] = [1 - case["ins"][0] if case["ins"][0] in (0, 1) else 1] + [rnd.randrange(0, 2 ** max(1, n - 1)) for _ in case["ins"][1:]]
@@ -52,6 +59,9 @@ def run(tier, seed):
     # of all sign combinations / zero / beyond the bitlength with error checking off: one shape per program
     pending = matrixcases.operator_kinds(kinds=["lc", "fxp", "bool", "int"] if tier == "quick" else None)
     nm = sum(1 + len(matrixcases.sign_variants(c)) for c in pending)
+    arnd = random.Random(seed * 13 + 1)
+    arrs = [dict(arraygen.gen_case(arnd, [progs.BN, 65537]), array=1) for _ in range(20 if tier == "quick" else 200)]
+    pending = pending + arrs; nm += 4 * len(arrs)
     return tracecheck.run(PID, tier, seed, PROFILE, oracle, n_quick=nm + 540, n_thorough=nm + 9000, variants=variants, post=post, mask=1 | 2 | 4,
                           casegen=matrixcases.with_pending(pending, PROFILE),
                           extra_assumptions=["shape = (kinds in allocation order, constraints in order with unordered multiplicands and coefficients mod p, result wires)"])
